@@ -8,6 +8,12 @@ RUN = "aas_core_codegen.run"
 MAIN = "aas_core_codegen.main"
 S = ["specs.report"]
 
+def _with(c, **attrs):
+    for k, v in attrs.items():
+        setattr(c, k, v)
+    return c
+
+
 TEXT = "atok.get_text(atok.tree)"
 STEXT = "self.atok.get_text(self.atok.tree)"
 
@@ -17,7 +23,7 @@ UNITS = [
     # not itself a line break (no construct starts on a '\n').  lc_line / lc_col are the recursive
     # definitions in contracts/_ext.py (global prefix folds): line = 1 + #'\n' before j, col = #chars since
     # the last '\n' before j.
-    Contract(f"{COMMON}:LinenoColumner.__init__", ["C04"], specs=S, ghost={"q": "int"},
+    Contract(f"{COMMON}:LinenoColumner.__init__", ["C04"], specs=S,
              loops={1: Loop(
                  use_gfolds=["lc_line", "lc_col"],
                  invariants=[
@@ -27,16 +33,17 @@ UNITS = [
                      ("table", f"forall(0, _i, lambda j: implies({TEXT}[j] != '\\n', positions[j] == "
                                f"(lc_line({TEXT}, j), lc_col({TEXT}, j) + 1)))"),
                  ])},
-             requires=[f"0 <= q < len({TEXT})"],
              ensures=[
                  ("table-size", f"len(self.positions) == len({TEXT})"),
                  ("one-based-line-and-column",
-                  f"implies({TEXT}[q] != '\\n', self.positions[q] == (lc_line({TEXT}, q), lc_col({TEXT}, q) + 1))"),
+                  f"forall(0, len({TEXT}), lambda q: implies({TEXT}[q] != '\\n', self.positions[q] == "
+                  f"(lc_line({TEXT}, q), lc_col({TEXT}, q) + 1)))"),
                  ("atok-kept", "self.atok is atok"),
              ],
              twins=[("zero-based-column",
-                     f"implies({TEXT}[q] != '\\n', self.positions[q] == (lc_line({TEXT}, q), lc_col({TEXT}, q)))")],
-             use_as_callee=False, replay="native.c04:replay_positions"),
+                     f"forall(0, len({TEXT}), lambda q: implies({TEXT}[q] != '\\n', self.positions[q] == "
+                     f"(lc_line({TEXT}, q), lc_col({TEXT}, q))))")],
+             replay="native.c04:replay_positions"),
 
     # error_message: located prefix is the 1-based (line, column) of the node's first character.
     # deep_ok(e) is the data invariant of Error trees established by the scan of every Error(...)
@@ -82,6 +89,37 @@ UNITS = [
                       ("non-empty", "len(written(stderr)) > len(old(written(stderr)))")],
              modifies=["stderr"],
              ),
+
+    # ------------------------------------------------------------------ front end entry (C01, C03, C23, C24)
+    Contract("aas_core_codegen.parse._translate:source_to_atok", ["C01"],
+             ensures=[("exactly-one", "(result[0] is None) != (result[1] is None)")],
+             twins=[("always-ok", "result[1] is None")]),
+    # trusted contracts of the front-end stages called by load_model (their bodies: parse/_translate.py 4 000 lines,
+    # intermediate/_translate.py 5 000 lines are outside the verifier's reach; their crash-freedom is C01's
+    # sweep + the unverified remainder)
+    Contract("aas_core_codegen.parse._translate:check_expected_imports", ["C01"], specs=S,
+             ensures=[("entries", "forall(0, len(result), lambda k: entry_ok(result[k]))")],
+             assumed=True, justification="ast.NodeVisitor based; every message there is a non-empty f-string starting with a letter"),
+    Contract("aas_core_codegen.parse._translate:atok_to_symbol_table", ["C01"], specs=S,
+             ensures=[("error-tree", "implies(result[1] is not None, pred('deep_ok', result[1]))")],
+             assumed=True, justification="Error trees: see the C03 scan of every Error(...) construction"),
+    Contract("aas_core_codegen.intermediate._translate:translate", ["C01"], specs=S,
+             ensures=[("error-tree", "implies(result[1] is not None, pred('deep_ok', result[1]))")],
+             assumed=True, justification="Error trees: see the C03 scan of every Error(...) construction"),
+
+    _with(Contract(f"{RUN}:load_model", ["C01", "C03", "C23", "C24"], specs=S,
+                   ensures=[
+                       ("report-non-empty", "implies(result[1] is not None, len(result[1]) > 0)"),
+                       ("no-cache-access-unless-asked",
+                        "implies(not cache_model, only_model_touched(fs_trace()))"),
+                       ("cache-protocol", "cache_trace_ok(fs_trace())"),
+                   ],
+                   twins=[("never-touches-cache", "only_model_touched(fs_trace())")],
+                   raises={"OSError": None},
+                   note="OSError from a failed cache write may propagate (outside C01: not caused by the meta-model); "
+                        "the protocol invariant is checked after every file-system step incl. the exceptional exits",
+                   replay="native.c23:replay_load_model"),
+          fs_invariant="specs.report:cache_trace_ok"),
 
     # ------------------------------------------------------------------ C23 (flag plumbing)
     Contract(f"{MAIN}:Parameters.__init__", ["C23"],
